@@ -334,9 +334,9 @@ def check_stats(cur):
         exp_acc.sort(key=lambda x: x[0])
         got = [(t, 0 if times_only else _val_bytes(v)) for t, v in get_sorted(stats, type=typ, recomputed=False, sortby='time')]
         if got != exp_acc:
-            # Recorded finding: a rejected and an accepted attempt END at the same time (typically both are cut at Tend)
-            # in different slots with the same restart count; the filter cannot tell their end-time keyed records apart
-            # and the rejected one survives.  Only a surplus that is exactly of this kind is attributed to it.
+            # Recorded finding: a rejected and an accepted attempt END (typically both are cut at Tend) or START (a step
+            # restarted only because its predecessor was, and a later first attempt) at the same time in different slots
+            # with the same restart count; the filter cannot tell their records apart and the rejected one survives.  Only a surplus that is exactly of this kind is attributed to it.
             extra = list(got)
             missing = []
             for e in exp_acc:
@@ -345,13 +345,13 @@ def check_stats(cur):
                 else:
                     missing.append(e)
             rejected = [a for a in exp_all if a not in acc]
-            explained = when == 'end' and not missing and bool(extra)
+            explained = not missing and bool(extra)
             for t, v in extra:
                 twins = [r for r in rejected if key_time(r) == t and any(key_time(a) == t and a['pre']['riar'] == r['pre']['riar'] and a['slot'] != r['slot'] for a in acc)]
                 if not twins:
                     explained = False
             if explained:
-                cur.viol.append(({'kind': 'filtered_records', 'cause': 'rejected and accepted attempt end at the same time with equal restart count in different slots'}, {'type': typ, 'extra_times': [t for t, _ in extra], 'cfg': cfg_key_small(cur.cfg)}))
+                cur.viol.append(({'kind': 'filtered_records', 'cause': f'rejected and accepted attempt {when} at the same time with equal restart count in different slots'}, {'type': typ, 'extra_times': [t for t, _ in extra], 'cfg': cfg_key_small(cur.cfg)}))
             else:
                 cur.v(
                     'filtered_records',
@@ -389,7 +389,14 @@ def check_stats(cur):
         got = get_sorted(stats, type='residual_post_iteration', recomputed=False, sortby='time')
         exp = sum(a['niter_cb'] for a in acc)
         if len(got) != exp:
-            cur.v('filtered_records', type='residual_post_iteration', n_got=len(got), n_expected=exp)
+            # the same recorded finding (start-time variant): the surplus is exactly the iterations of rejected attempts that
+            # share start time and restart count with an accepted attempt of another slot
+            rejected = [a for a in allatt if a not in acc]
+            twins = [r for r in rejected if any(a['time'] == r['time'] and a['pre']['riar'] == r['pre']['riar'] and a['slot'] != r['slot'] for a in acc)]
+            if twins and len(got) - exp == sum(r['niter_cb'] for r in twins):
+                cur.viol.append(({'kind': 'filtered_records', 'cause': 'rejected and accepted attempt start at the same time with equal restart count in different slots'}, {'type': 'residual_post_iteration', 'extra_times': sorted({r['time'] for r in twins}), 'cfg': cfg_key_small(cur.cfg)}))
+            else:
+                cur.v('filtered_records', type='residual_post_iteration', n_got=len(got), n_expected=exp)
 
 
 # ------------------------------------------------------------------------------------------------------------
